@@ -82,11 +82,15 @@ func gen(r *prng.R, f proto.Flags, emit func(proto.Case)) {
 	}
 	genSharing(r, f, emit)
 	genStress(r, f, emit)
+	genPublish(f, emit)
 }
 
 func exec(c proto.Case, o *proto.Out) []string {
 	if len(c.Ops) > 0 && (strings.HasPrefix(c.Ops[0], "script") || strings.HasPrefix(c.Ops[0], "run")) {
 		return execSharing(c, o)
+	}
+	if len(c.Ops) > 0 && strings.HasPrefix(c.Ops[0], "stress-queue-publish") {
+		return execPublish(c, o)
 	}
 	if len(c.Ops) > 0 && strings.HasPrefix(c.Ops[0], "stress-") {
 		return execStress(c, o)
